@@ -5,10 +5,12 @@ import Rink.Driver.Digits
 import Rink.Driver.Expr
 import Rink.Driver.Subst
 import Rink.Driver.Cache
+import Rink.Driver.Load
 
 def main (args : List String) : IO UInt32 := do
   match args with
   | ["alloc"] => Rink.Driver.Alloc.main; return 0
+  | ["defs", path] => Rink.Driver.Load.defsMain path; return 0
   | ["cache"] => Rink.Driver.Cache.main; return 0
   | ["subst", dump] => Rink.Driver.Subst.main dump; return 0
   | ["expr"] => Rink.Driver.Expr.main; return 0
